@@ -4,3 +4,6 @@ open AC.Props.C11
 #print axioms C11_runs_ok
 #print axioms C11_refuse
 #print axioms C11_refuse_invalid
+#print axioms C11_src_runsChain
+#print axioms C11_src_refuse_invalid
+#print axioms AC.RunsTie.runsChain_tie
